@@ -548,6 +548,16 @@ def _lbfgsb_cases(tier, seed):
                         out.append({"check": "lbfgsb", "loss": loss, "data": d, "rank": R, "mask": mask, "via": via,
                                     "seed": seed,
                                     "maxiter": [0, 1, 2, 3, 5, 10, 40, 200] if th else [0, 1, 2, 5, 40]})
+    # deviations from the default answers of the wrapped scipy routine: the line search gives up after maxls trial
+    # points (scipy then falls back to the last accepted iterate, which is NOT the last vector it evaluated) and the
+    # evaluation budget maxfun ends the run between two iterates
+    devs = [{"maxls": 1}, {"maxls": 2}, {"maxfun": 2}, {"maxls": 2, "maxfun": 5}]
+    if th:
+        devs += [{"maxls": 3}, {"maxfun": 1}, {"maxfun": 3}, {"maxls": 1, "maxfun": 3}, {"m": 1}, {"m": 1, "maxls": 2}]
+    for c in list(out):
+        if c["via"] == "solve" or th:
+            for dv in devs:
+                out.append(dict(c, opts=dv, maxiter=[1, 2, 5, 40] if not th else [1, 2, 3, 5, 10, 40]))
     return out
 
 
@@ -1300,8 +1310,9 @@ def _one_lbfgsb(c, ctx, ttb):
         W = np.ones(shape)
         W[rm.cells(shape)[1]] = 0.0
     K0 = ttb.ktensor([m.copy() for m in K0f])
-    opt = LBFGSB(maxiter=c["maxiter"])
-    variant = "mask" if W is not None else "nomask"
+    opts = c.get("opts") or {}
+    opt = LBFGSB(maxiter=c["maxiter"], **opts)
+    variant = ("mask" if W is not None else "nomask") + ("".join(f":{k}{v}" for k, v in sorted(opts.items())))
     op = "LBFGSB.solve" if via == "solve" else "gcp_opt"
     ctx.tick()
     try:
@@ -1332,7 +1343,14 @@ def _one_lbfgsb(c, ctx, ttb):
     if not np.isfinite(F1) or F1 > F0 + 1e-12 * (1 + abs(F0)):
         fail("worse_than_start", f"final objective {F1!r} > initial {F0!r} (maxiter {c['maxiter']})")
     ff = float(info["final_f"])
-    if abs(ff - F1) > 1e-9 * (1 + abs(F1)):
+    # scipy (1.14) hands back the function value of the rejected trial point together with the restored iterate when
+    # the line search gives up (warnflag 2): that pairing is scipy's answer, not something the wrapper computes, and
+    # the property only bounds the objective of the returned model (checked above on every run)
+    if int(info.get("warnflag", 0)) == 2:
+        ctx.flag("lbfgsb:linesearch_abandoned")
+    if int(info.get("warnflag", 0)) == 2 or "maxls" in opts:
+        pass  # (a run that abandoned a line search earlier and stopped for another reason keeps the stale value too)
+    elif abs(ff - F1) > 1e-9 * (1 + abs(F1)):
         fail("wrong_value", f"final_f {ff!r} but the objective of the returned model is {F1!r}", op + ".final_f")
     if any((m < lb).any() or np.isnan(m).any() for m in ret_f):
         fail("bound_violated", f"lower bound {lb}: min entry {min(float(np.nanmin(m)) for m in ret_f)}")
